@@ -40,7 +40,9 @@ def build(c, smm, layout, n):
         kind = KINDS[c.choose(f"kind{i}", 3)]
         first = c.boolean(f"first{i}") if kind != "default" else False
         mf = c.boolean(f"mf{i}") if kind != "default" else False
-        specs.append((f"s{i}", kind, first, mf, f"doc of s{i}" if i % 2 == 0 else None))
+        # the last state carries a (legal) underscore-prefixed name
+        nm = f"_s{i}" if (i == n - 1 and n > 1) else f"s{i}"
+        specs.append((nm, kind, first, mf, f"doc of s{i}" if i % 2 == 0 else None))
     SM = smm.StateMachine
 
     def ns(items):
@@ -184,6 +186,26 @@ def path_flags(c, job):
         except smm.IllegalCallError:
             ok = True
         c.prove("C12.call direct-call-raises-IllegalCallError", ok)
+        # ... through the instance or through any class of the hierarchy that defines the name (also a shadowed
+        # definition of a base class), with or without arguments
+        bad = []
+        for nm in names:
+            forms = [("instance", lambda nm=nm: getattr(sm, nm)()), ("instance-args", lambda nm=nm: getattr(sm, nm)(0.0, 0.0, True))]
+            for K in type(sm).__mro__:
+                st = vars(K).get(nm)
+                if st is not None and callable(st) and type(st).__name__ == "_State":
+                    forms.append((f"class {K.__name__}", lambda st=st: st(sm)))
+                    forms.append((f"class {K.__name__} kw", lambda st=st: st(sm, tm=0.0, initial_call=True)))
+            for how, f in forms:
+                c.reach("direct-call-forms")
+                try:
+                    f()
+                    bad.append((nm, how, "returned"))
+                except smm.IllegalCallError:
+                    pass
+                except Exception as e:
+                    bad.append((nm, how, type(e).__name__))
+        c.prove("C12.call direct-call-raises-IllegalCallError", not bad, info=dict(bad=bad[:4]))
 
 
 BAD_SIGS = [
